@@ -265,6 +265,106 @@ def ncalls(items):
     return sum(7 if it["kind"] == "test" else 1 for it in items)
 
 
+def any_tags(p):
+    return bool(p["n"] or p["g"])
+
+
+def merge(ex, ch):
+    n = (set(ex["n"]) | set(ch["n"])) - set(ch["g"])
+    g = (set(ex["g"]) | set(ch["g"])) - set(ch["n"])
+    return {"n": sorted(n), "g": sorted(g)}
+
+
+def expected_block(work, t, i):
+    """Meaning of BlockShape in Python (only used to describe a violation in its signature; TLC decides)."""
+    g = NOTAGS
+    for it in work[t - 1][:i]:
+        if it["kind"] == "test":
+            g = merge(g, it["gt"])
+        elif it["kind"] == "startTestRun":
+            g = NOTAGS
+    it = work[t - 1][i - 1]
+    d = 100 * t + 10 * i
+    out = [("time", d + 1, None), ("startTest", d, None), ("time", d + 2, None)]
+    if any_tags(g):
+        out.append(("tags", 0, jdump(g)))
+    if any_tags(it["xt"]):
+        out.append(("tags", 0, jdump({"n": sorted(it["xt"]["n"]), "g": sorted(it["xt"]["g"])})))
+    return out + [(it["out"], d, None), ("stopTest", d, None)]
+
+
+def restrict_to_domain(work, faults):
+    """Domain of C12's check: once the target has raised for a forwarder, its thread gives no further tags() call
+    OUTSIDE a test (such a call is buffered as test-local because _test_start stays set after a fault - tag scoping
+    after a fault is C17's subject).  Implemented by removing the run-level tag operation of every item that follows
+    the item in which the thread's first fault position lies (call counts before the first fault are exact)."""
+    work = [[dict(it) for it in items] for items in work]
+    for t, items in enumerate(work, 1):
+        ks = sorted(k for (tt, k) in faults if tt == t)
+        if not ks:
+            continue
+        n = 0
+        g = NOTAGS
+        first = None
+        for i, it in enumerate(items, 1):
+            if it["kind"] == "test":
+                g = merge(g, it["gt"])
+                n += 5 + (1 if any_tags(g) else 0) + (1 if any_tags(it["xt"]) else 0)
+            else:
+                n += 1
+                if it["kind"] == "startTestRun":
+                    g = NOTAGS
+            if ks[0] <= n:
+                first = i
+                break
+        if first is not None:
+            for it in items[first:]:
+                it["gt"] = NOTAGS
+    return work
+
+
+def calibrate_variant():
+    """Which buffer-reset behaviour does the tree under test implement?  One sequential execution: the target raises
+    at startTest of a test tagged {x}; does the next test's block carry x?"""
+    work = [[T("addSuccess", None, add("x")), T("addSuccess", None, None)]]
+    trace, dl, ex = run_scenario(work, [(1, 2)], S.Follow([], "first"))
+    if dl is not None:
+        return "asCoded"
+    second = [e for e in trace["ev"] if e["act"] == "call" and e["call"] == "tags"]
+    # the first block stops at startTest (no tags call made), so any tags call belongs to the second block
+    return "asCoded" if second else "asRequired"
+
+
+def blockshape_signature(trace, l):
+    """Signature of a BlockShape violation found by TLC after l events: what differs (only the tags calls, or the
+    shape otherwise) and the history class: the class of the last call on which the target had raised for the same
+    thread, in a test block, before this block (nofault / before-outcome = time,startTest,tags / outcome-or-later)."""
+    ev = trace["ev"][:l]
+    last = ev[-1] if ev else {}
+    t = last.get("thr")
+    d = last.get("v", 0)
+    calls = [e for e in ev if e["act"] == "call"]
+    # the block = calls from the time() preceding startTest(d) to the end
+    start = None
+    for j, e in enumerate(calls):
+        if e["call"] == "startTest" and e["v"] == d and e["thr"] == t:
+            start = j - 1
+    what = "shape"
+    cls = "nofault"
+    if last.get("call") == "stopTest" and start is not None and start >= 0:
+        blk = [(e["call"], e["v"], jdump(e["tg"]) if e["call"] == "tags" else None) for e in calls[start:]]
+        i = (d % 100) // 10
+        if 1 <= i <= len(trace["work"][t - 1]) and trace["work"][t - 1][i - 1]["kind"] == "test":
+            exp = expected_block(trace["work"], t, i)
+            if [b for b in blk if b[0] != "tags"] == [b for b in exp if b[0] != "tags"]:
+                what = "tags"
+        for e in calls[: max(start, 0)]:
+            # (a raise of a run-level call does not touch the per-test buffers: not part of the history class)
+            if e["thr"] == t and e["f"] and e["call"] not in RUNLEVEL:
+                cls = "before-outcome" if e["call"] in ("time", "startTest", "tags") else "outcome-or-later"
+    return "B2:BlockShape:%s:after-fault:%s" % (what, cls)
+
+
 def systematic_scenarios(tier):
     plain, tagged = T(), T("addError", add("g"), add("x"))
     ungl, ttg = T("addSkip", rem("g"), None), T("addFailure", None, add("x", "y"))
@@ -275,6 +375,12 @@ def systematic_scenarios(tier):
     for k in range(1, 8):
         sc.append((w22, [(1, k)], 2))
     sc.append((w22, [(2, 1)], 2))
+    # a tagged test whose block faults at every call position, followed by another tagged test of the same thread
+    slow, fast = T("addSuccess", None, add("slow")), T("addSuccess", None, add("fast"))
+    for k in range(1, 7):
+        sc.append(([[slow, fast], [plain]], [(1, k)], 2))
+    for k in range(1, 8):
+        sc.append(([[tagged, fast, slow]], [(1, k)], 1))
     sc.append(([[tagged, ungl], [plain, T("addUnexpectedSuccess", add("h"), None)]], [], 2))
     sc.append(([[R("stop"), plain], [T("addExpectedFailure"), R("done")]], [(1, 1)], 2))
     sc.append(([[R("shouldStop"), tagged], [R("stopTestRun"), plain]], [(2, 1), (1, 6)], 2))
@@ -288,7 +394,9 @@ def systematic_scenarios(tier):
         sc.append(([[plain, plain], [plain, plain]], [], 3))
         sc.append((w22, [(1, 6), (1, 7)], 3))
         sc.append(([[tagged, tagged, tagged], [ungl, ttg, plain]], [(1, 9)], 2))
-    return sc
+        for k in (2, 5, 6, 7):
+            sc.append(([[tagged, fast], [slow, fast]], [(1, k), (2, k - 1)], 3))
+    return [(restrict_to_domain(w, f), f, b) for (w, f, b) in sc]
 
 
 TAGOPS = (None, None, add("g"), rem("g"), add("x"), add("g", "h"), rem("h"), {"n": ["a"], "g": ["g"]})
@@ -313,7 +421,7 @@ def random_scenario(rng):
         f = (t, rng.randint(1, ncalls(work[t - 1])))
         if f not in faults:
             faults.append(f)
-    return work, faults
+    return restrict_to_domain(work, faults), faults
 
 
 def preemptions(events):
@@ -401,11 +509,18 @@ def run(tier, pid="C12"):
         "preemption inside a block attempt, or a fault that was reached; distinct by (work, faults, schedule).",
     )
     rep.assume("each reporting thread gives explicit times (time(start) before startTest, time(end) before the outcome)")
-    rep.assume("BlockShape constrains the tags of a block only for threads whose target has not raised before "
-               "(after a fault the forwarder keeps a stale _test_start; tag scoping is C17's subject)")
+    rep.assume("domain: once the target has raised for a forwarder, its thread gives no further tags() call OUTSIDE a "
+               "test (after a fault _test_start stays set, so such a call is buffered as test-local: tag scoping after "
+               "a fault is C17's subject); everything else after a fault is checked - BlockShape holds for EVERY block")
     rep.assume("the target double raises TargetFault(Exception); it never raises TypeError/AttributeError")
     quick = tier == "quick"
     actions = ["DoLocal", "DoAcquire", "DoCall", "DoRelease", "Done"]
+    # which buffer-reset behaviour the tree under test implements (probe on the real code); conformance (strict trace
+    # validation, B1 exports) is checked against that variant of the mechanism, the PROPERTIES against asRequired
+    variant = calibrate_variant()
+    rep.extra["mechanism_variant_of_tree"] = variant
+    env_req = {"C12_VARIANT": "asRequired"}
+    env_tree = {"C12_VARIANT": variant}
 
     # ---- TLC jobs run in the background (2 at a time, 4 workers each) while the real executions are made ----
     from concurrent.futures import ThreadPoolExecutor
@@ -414,7 +529,7 @@ def run(tier, pid="C12"):
     exps = ["ts_exp21.cfg", "ts_exp22q.cfg"] if quick else ["ts_exp21.cfg", "ts_exp22.cfg"]
     pool = ThreadPoolExecutor(2)
     jobs = {
-        cfg: pool.submit(tlc.run_tlc, "conc", "MCThreadsafe", cfg, workers=4, coverage=True, timeout=1500)
+        cfg: pool.submit(tlc.run_tlc, "conc", "MCThreadsafe", cfg, workers=4, coverage=True, timeout=1500, env=env_tree)
         for cfg in exps
     }
     if not quick:
@@ -422,9 +537,13 @@ def run(tier, pid="C12"):
         exps.append("ts_sim.cfg")
         jobs["ts_sim.cfg"] = pool.submit(
             tlc.run_tlc, "conc", "MCThreadsafe", "ts_sim.cfg", workers=4, simulate=dict(num=400, depth=120),
-            seed=rep.seed + 1, deadlock=True, coverage=False, timeout=1500)
+            seed=rep.seed + 1, deadlock=True, coverage=False, timeout=1500, env=env_tree)
     for cfg in mc:
-        jobs[cfg] = pool.submit(tlc.run_tlc, "conc", "MCThreadsafe", cfg, workers=4, coverage=True, timeout=1500)
+        jobs[cfg] = pool.submit(tlc.run_tlc, "conc", "MCThreadsafe", cfg, workers=4, coverage=True, timeout=1500,
+                                env=env_req)
+    # the mechanism as coded (buffers not cleared when the block raises) must violate BlockShape in the model
+    jobs["coded"] = pool.submit(tlc.run_tlc, "conc", "MCThreadsafe", "ts_mcCoded.cfg", workers=2, coverage=False,
+                                timeout=600, env={"C12_VARIANT": "asCoded"})
 
     # ---- B2: systematic + random executions, validated by TLC --------------------------------
     traces = []
@@ -507,9 +626,14 @@ def run(tier, pid="C12"):
         tlc.require_ok(r, "C12 " + cfg)
         tlc.require_coverage(r, actions, "C12 " + cfg)
         rep.add_tlc(r, cfg)
+    r = jobs["coded"].result()
+    if r.violated != "BlockShape":
+        raise tlc.MachineryError("C12 ts_mcCoded.cfg: the asCoded mechanism should violate BlockShape (got violated=%s "
+                                 "error=%s)" % (r.violated, r.error))
+    rep.add_tlc(r, "ts_mcCoded.cfg (expected: BlockShape violated)")
     pool.shutdown()
 
-    val = Validator("conc", "ThreadsafeTrace", "ts_trace_strict.cfg", "ts_trace_loose.cfg")
+    val = Validator("conc", "ThreadsafeTrace", "ts_trace_strict.cfg", "ts_trace_loose.cfg", env=env_tree)
     verdicts, validated = val.validate(traces)
     for what, r in val.tlc_results:
         rep.add_tlc(r, "trace:" + what)
@@ -521,6 +645,8 @@ def run(tier, pid="C12"):
             cut = dict(tr, ev=tr["ev"][:l], complete=False if l < len(tr["ev"]) else tr["complete"])
             last = tr["ev"][l - 1] if l else {}
             sig = "B2:%s:%s:%s" % (inv, last.get("call") if last.get("act") == "call" else last.get("act"), fault_sig(tr))
+            if inv == "BlockShape":
+                sig = blockshape_signature(tr, l)
             rep.violation(inv, sig, {"kind": "B2", "trace": cut}, expected="invariant %s of Threadsafe.tla" % inv,
                           observed=abstract(cut))
         else:
@@ -555,7 +681,8 @@ def replay_file(path, pid="C12"):
         print("VIOLATION property=C12 replay=%s" % path)
         print("  clause=NoDeadlock waiting=%r" % (dl,))
         return 1
-    val = Validator("conc", "ThreadsafeTrace", "ts_trace_strict.cfg", "ts_trace_loose.cfg")
+    val = Validator("conc", "ThreadsafeTrace", "ts_trace_strict.cfg", "ts_trace_loose.cfg",
+                    env={"C12_VARIANT": calibrate_variant()})
     verdicts, _ = val.validate([trace])
     if verdicts and verdicts[0][0] == "violation":
         print("VIOLATION property=C12 replay=%s" % path)
